@@ -235,6 +235,24 @@ CHECKS["C03"] = dict(
          "C07's model; here it is observed through open().",
     technique="Lean 4 proof (mutual induction over nesting; parametricity in the per-key-file worlds) + model/implementation correspondence",
     design="6 C03")
+CHECKS["C13"] = dict(
+    text="Lean 4 theorems about a heap model with ghost ownership (list / dict / configuration cells; a schema's mutable defaults are "
+         "schema-owned cells; build / assignment of fresh values / in-place mutation at any depth / reset / dynamic-field addition / "
+         "list-item addition on one root configuration at a time): the separation invariant (everything reachable from root i is owned by "
+         "i, everything reachable from a declared default by the schema, no cell referenced twice, acyclic) holds initially and is "
+         "preserved by every step; hence for every history and i != j an operation (sequence) on i changes neither the deep observation "
+         "nor the dynamic fields of j nor any declared default; a configuration built after any history observes what one built first "
+         "observes; defaults never change; items of different lists (same or different roots, same item schema) are independent. The "
+         "one hypothesis, AllDeep, is discharged by a decide obligation over the translator's table of how each __setdefault__ of the "
+         "current source hands a mutable default over; witnesses show alias and shallow copies break every conclusion. Correspondence: "
+         "random schema tables x histories over two to four roots on the real library vs the model (deep observations of every root and "
+         "every default after every step) plus the direct oracle of the property on the implementation, field sets and options included.",
+    note="Model hand-written (Cinco/Heap/Model.lean), tied by histories; the copy discipline per field class is read off the source "
+         "syntactically (harness/extract.py default_disciplines). Schemas are immutable in the model by construction; the real schema's "
+         "field table and field options are observed per step. Operations use fresh arguments: a value read from one configuration and "
+         "assigned to another is shared by ordinary Python semantics and is outside the stream (DESIGN.md 13.3).",
+    technique="Lean 4 proof (ownership / separation invariant by induction over histories, frame lemma) + translator-generated decide obligation + model/implementation correspondence",
+    design="6 C13")
 PENDING = ["C01", "C02", "C03", "C04", "C05", "C06", "C07", "C08", "C09", "C10", "C11", "C12", "C13", "C14", "C15", "C16",
            "C17", "C19", "C20"]
 
